@@ -84,7 +84,12 @@ class DiffBaseStorage(conventions.StorageKeyMarkingConvention,
                 del annotations[annotation]
 
         # Restore all explicitly whitelisted extra-fields from the original body.
-        dicts.cherrypick(src=body, dst=essence, fields=extra_fields, picker=copy.deepcopy)
+        # A field under a non-mapping parent (e.g. a list or a scalar) is the same as an absent field.
+        for extra_field in (extra_fields if extra_fields is not None else []):
+            try:
+                dicts.cherrypick(src=body, dst=essence, fields=[extra_field], picker=copy.deepcopy)
+            except TypeError:
+                pass
 
         self.remove_empty_stanzas(cast(bodies.BodyEssence, essence))
 
